@@ -314,6 +314,9 @@ pub fn run(sink: &mut Sink, rng: &mut Rng, thorough: bool, dir: &Path) {
   threshold_sweep::<T64>(sink, rng, dir, &[12, 13, 14, 15, 28, 29, 30, 31, 61]);
   threshold_sweep::<F64>(sink, rng, dir, &[10, 11, 12, 13, 14, 26, 27, 28, 29, 30, 59]);
 
+  // space-time variants of `moc op`
+  crate::st::c19_st(sink, rng, thorough, dir);
+
   // NUNIQ (v1) inputs for space
   for _ in 0..(if thorough { 40 } else { 8 }) {
     let (dl, ll) = shallow_moc::<H64>(rng);
